@@ -515,8 +515,12 @@ func genStickyPlan(seed uint64, tier string) *Plan {
 	if longCalls {
 		// calls that outlive the configured dialog timeout because the establishing answers promise more (Expires)
 		c.DialogTimeout = g.rng(20, 90)
-		c.Knobs = map[string]int{"longCalls": 1}
+		c.Knobs = map[string]int{"longCalls": 1, "longExpires": g.pick2(7200, 7200, 86400, 604800, 2147483647)}
 	}
+	if c.Knobs == nil {
+		c.Knobs = map[string]int{}
+	}
+	c.Knobs["subStatus"] = g.pick2(200, 200, 202) // how user agents accept a SUBSCRIBE
 	p.Cfg = *c
 	nd := g.rng(1, 6)
 	if g.chance(25) {
@@ -748,7 +752,14 @@ func (d *dlgWorld) installStickyRules(prop string) {
 		ids := idsOf(mod.op)
 		exp := -1
 		if d.c.Knobs["longCalls"] == 1 {
-			exp = 7200
+			exp = d.c.Knobs["longExpires"]
+			if exp == 0 {
+				exp = 7200
+			}
+		}
+		subStatus := d.c.Knobs["subStatus"]
+		if subStatus == 0 {
+			subStatus = 200
 		}
 		switch {
 		case step == "inv":
@@ -766,7 +777,7 @@ func (d *dlgWorld) installStickyRules(prop string) {
 			out = append(out, respPlan{delay: final, status: 200, toTag: ids.toTag, expires: exp})
 			return out
 		case step == "sub":
-			return []respPlan{{delay: base, status: 200, toTag: ids.toTag, expires: exp}}
+			return []respPlan{{delay: base, status: subStatus, toTag: ids.toTag, expires: exp}}
 		case strings.HasPrefix(step, "s"):
 			idx, _ := strconv.Atoi(step[1:])
 			status := 200
